@@ -34,6 +34,8 @@ Fixpoint anon_fill (fs : fields) (fvs : list fvt) : outcome (list val * bool) :=
       | [] => Panic 2
       | (f, v) :: fr =>
           if str_eqb n (sf_name f) then
+            a <- assign_or_convert v t ;;
+            let v := match a with Some v' => v' | None => v end in
             x <- (if exported n then set_into t v else Panic 3) ;;
             let nil1 := nilable5 (fst v) && is_vnil (snd v) in
             b <- anon_fill r fr ;;
